@@ -24,7 +24,12 @@ type listsLine struct {
 	C1    int    `json:"c1"`
 	C2    int    `json:"c2"`
 	Grow  int    `json:"grow"`
-	Ty    map[string]struct {
+	Hd    []struct {
+		N int    `json:"n"`
+		S bytesJ `json:"s"`
+		L bytesJ `json:"l"`
+	} `json:"hd"`
+	Ty map[string]struct {
 		E string `json:"e"`
 		K int    `json:"k"`
 	} `json:"ty"`
@@ -53,6 +58,50 @@ func TestLists(t *testing.T) {
 	}
 	res.Behaviours = sent
 	sort.SliceStable(all, func(i, j int) bool { return all[i].Claim < all[j].Claim })
+	// the length side of putint: strings and lists with payloads of 255..65537 (and 2^24-1) bytes
+	if len(all) > 0 {
+		for _, h := range all[0].Hd {
+			res.Count(2)
+			str := bytes.Repeat([]byte{0xa5}, h.N)
+			detail := map[string]interface{}{"payload_bytes": h.N}
+			var out []byte
+			var back []byte
+			err := guard(func() (e error) {
+				if out, e = krlp.EncodeToBytes(str); e != nil {
+					return
+				}
+				return krlp.DecodeBytes(out, &back)
+			})
+			if err != nil || !bytes.Equal(out, append(append([]byte{}, h.S...), str...)) || !bytes.Equal(back, str) {
+				res.Mismatch("rlp:encode:long-string-header", fmt.Sprintf("a string of %d bytes encodes with header %s (err %v), specified %s",
+					h.N, shortHex(out[:min2(len(out), 6)]), err, hexOf(h.S)), detail)
+			}
+			// a list whose payload has exactly h.N bytes: one string element with its own header
+			hl := 2
+			for ; hl < 5; hl++ { // header length of the element: 1 + number of length bytes of (N - hl)
+				if m := h.N - hl; (m < 256 && hl == 2) || (m >= 256 && m < 65536 && hl == 3) || (m >= 65536 && hl == 4) {
+					break
+				}
+			}
+			elem := bytes.Repeat([]byte{0xa5}, h.N-hl)
+			var lst []interface{}
+			err = guard(func() (e error) {
+				if out, e = krlp.EncodeToBytes([]interface{}{elem}); e != nil {
+					return
+				}
+				var v interface{}
+				if e = krlp.DecodeBytes(out, &v); e == nil {
+					lst, _ = v.([]interface{})
+				}
+				return
+			})
+			ok := err == nil && len(out) == len(h.L)+h.N && bytes.Equal(out[:len(h.L)], h.L) && len(lst) == 1 && sameItem(lst[0], elem)
+			if !ok {
+				res.Mismatch("rlp:encode:long-list-header", fmt.Sprintf("a list with a payload of %d bytes encodes with header %s, %d bytes in all (err %v), specified header %s",
+					h.N, shortHex(out[:min2(len(out), 6)]), len(out), err, hexOf(h.L)), detail)
+			}
+		}
+	}
 	skip := map[string]bool{}
 	var ms runtime.MemStats
 	var maxSeen uint64
